@@ -24,10 +24,14 @@ package zenodb
 //@   loop 1 invariant bounds: 0 <= $i && $i <= len(outFields)
 //@   nopanic own
 
-// C10: every point belongs to exactly one partition: partitionFor returns a partition number in [0, NumPartitions).
+// C10: every point belongs to exactly one partition: partitionFor returns a partition number in [0, NumPartitions). With
+// partition keys configured only the values of those keys are hashed (points lacking all of them hash the empty string and
+// are co-located, which pushdown relies on); all dims are hashed only when no keys are configured.
 //@ func (*DB).partitionFor
 //@   requires db != nil && h != nil && db.opts != nil && db.opts.NumPartitions > 0
 //@   modifies nothing
+//@   capture keyBytes Slice = result 0 of call bytemap.ByteMap).GetBytes
+//@   at call hash.Hash32.Write assert hashes_only_partition_keys: len(partitionKeys) > 0 ? (captured(keyBytes) && callarg1 == keyBytes) : callarg1 == dims
 //@   ensures in_range: 0 <= result && result < old(db.opts.NumPartitions)
 
 //@ func (*DB).inPartition
@@ -42,6 +46,7 @@ package zenodb
 //@   modifies *
 //@   capture sameLayout Bool = result 0 of call core.Fields).Equals
 //@   at call dyn:onRow assert raw_only_if_same_layout: len(callarg2) == 0 || sameLayout
+//@   at call zenodb.rowMapper assert maps_from_file_header: callarg0 == outFields && callarg1 == fileFields
 //@   at call dyn:onRow assert columns_fresh_per_row: len(callarg1) == 0 || freshInLoop(callarg1)
 
 // C02: on open, the resume offsets are the per-source maximum (Advance) of the newest readable filestore's header
@@ -91,6 +96,8 @@ package zenodb
 //@   modifies *
 //@   callback Panic noreturn
 //@   at call (*zenodb.fileStore).flush assert every_tenth: callarg7 == ((rs.flushCount - 1) % 10 == 9)
+//@   capture newMS Int = result 0 of call (*zenodb.rowStore).newMemStore
+//@   at call sync.RWMutex).Unlock assert handover_atomic: captured(newMS) ==> rs.memStore == newMS && rs.fileStore == fs && rs.fileStore != nil
 
 // C01/C14/C10: admission of one WAL entry. The entry's time is decoded from its first 8 bytes; the point reaches
 // doInsert only if it is not older than truncateBefore() (retention guard), only if a follower's partition test
